@@ -69,6 +69,8 @@ CELL_ROLE = {
     'yyisourbuffer': 'OURBUF',
     'yyisinteractive': 'INTERACTIVE',
     'yystart': 'START',
+    'yylastacceptingstate': 'LASTSTATE',
+    'yymorelen': 'MORELEN',
     'yybufferstack': 'BUFSTACK',
     'yydidbufferswitchoneof': 'DIDSWITCH',
 }
@@ -115,9 +117,56 @@ class Scanner:
         s._ptaint = None
         s._movers = None
         s._takelike = {}
+        s._vcall = {}
+        s._vtabs = {}
 
     def fns(s, role):
         return s.by_role.get(role, [])
+
+    # ---- callee of a call instruction; C++ virtual calls are resolved through the vtable of the static class
+    def callee(s, c):
+        if isinstance(c.callee, str): return c.callee
+        if c.callee is None: return None
+        k = id(c)
+        if k not in s._vcall: s._vcall[k] = s._resolve_vcall(c)
+        return s._vcall[k]
+
+    def _resolve_vcall(s, c):
+        fn = c.fn
+        d = fn.def_of(c.callee) if isinstance(c.callee, tuple) else None
+        if d is None or d.op != 'load': return None
+        g = fn.def_of(d.ops[0])
+        if g is None or g.op != 'getelementptr' or len(g.ops) != 2 or g.ops[1][0] != 'int': return None
+        vt = fn.def_of(g.ops[0])
+        if vt is None or vt.op != 'load': return None
+        bc = fn.def_of(vt.ops[0])
+        if bc is None or bc.op != 'bitcast' or bc.srcty is None or bc.srcty.k != 'ptr' or bc.srcty.a.k != 'named': return None
+        cls = re.sub(r'^(class|struct)\.', '', bc.srcty.a.a)
+        tab = s._vtable(cls)
+        slot = g.ops[1][1] + 2            # offset-to-top and RTTI come first
+        return tab[slot] if tab and 0 <= slot < len(tab) else None
+
+    def _vtable(s, cls):
+        if cls not in s._vtabs:
+            gv = s.mod.globals.get('_ZTV%d%s' % (len(cls), cls))
+            ents = None
+            if gv is not None:
+                m = re.search(r'\[\d+ x i8\*\] \[(.*)\]', gv.text)
+                if m:
+                    ents = []; depth = 0; cur = ''
+                    for ch in m.group(1):
+                        if ch in '([{': depth += 1
+                        elif ch in ')]}': depth -= 1
+                        if ch == ',' and depth == 0: ents.append(cur); cur = ''
+                        else: cur += ch
+                    ents.append(cur)
+                    out = []
+                    for e in ents:
+                        mm = re.search(r'@("[^"]*"|[-\w.$]+) to i8\*', e)
+                        out.append(mm.group(1).strip('"') if mm else None)
+                    ents = out
+            s._vtabs[cls] = ents
+        return s._vtabs[cls]
 
     def fn(s, role, having_call=None):
         """the function with that role (if several - C++ overloads, yyclass - the one that calls `having_call`)"""
@@ -186,8 +235,8 @@ class Scanner:
         if not s.restore_sites(fn):
             tk = list(a.takes())
             for c in fn.ins:
-                if c.op in ('call', 'invoke') and isinstance(c.callee, str) and c.callee != fn.name:
-                    g = s.mod.functions.get(c.callee)
+                if c.op in ('call', 'invoke'):
+                    g = s.callee_fn(c, fn)
                     if g is not None and s.take_like(g, depth + 1): tk.append(c)
             if tk:
                 cfg = s.prog.cfg(fn)
@@ -201,8 +250,8 @@ class Scanner:
         a = s.fa(fn)
         out = list(a.takes())
         for c in fn.ins:
-            if c.op in ('call', 'invoke') and isinstance(c.callee, str) and c.callee != fn.name:
-                g = s.mod.functions.get(c.callee)
+            if c.op in ('call', 'invoke'):
+                g = s.callee_fn(c, fn)
                 if g is not None and s.take_like(g): out.append(c)
         return out
 
@@ -218,8 +267,8 @@ class Scanner:
         if not a.takes():
             rs = list(a.restores())
             for c in fn.ins:
-                if c.op in ('call', 'invoke') and isinstance(c.callee, str) and c.callee != fn.name:
-                    g = s.mod.functions.get(c.callee)
+                if c.op in ('call', 'invoke'):
+                    g = s.callee_fn(c, fn)
                     if g is not None and s.restore_like(g, depth + 1): rs.append(c)
             if rs:
                 cfg = s.prog.cfg(fn)
@@ -233,13 +282,19 @@ class Scanner:
         a = s.fa(fn)
         out = list(a.restores())
         for c in fn.ins:
-            if c.op in ('call', 'invoke') and isinstance(c.callee, str) and c.callee != fn.name:
-                g = s.mod.functions.get(c.callee)
+            if c.op in ('call', 'invoke'):
+                g = s.callee_fn(c, fn)
                 if g is not None and s.restore_like(g): out.append(c)
         return out
 
     def calls(s, fn, *roles):
-        return [c for c in fn.ins if c.op in ('call', 'invoke') and fn_role(c.callee) in roles]
+        return [c for c in fn.ins if c.op in ('call', 'invoke') and fn_role(s.callee(c)) in roles]
+
+    def callee_fn(s, c, notself=None):
+        """the function defined in this unit that a call instruction calls, else None"""
+        n = s.callee(c)
+        if n is None or (notself is not None and n == notself.name): return None
+        return s.mod.functions.get(n)
 
 
 class FnAnalysis:
@@ -579,8 +634,8 @@ def stale_use(sc, fn, start_blk, what):
         kills = list(a.cell_stores(role))
         # a callee that (transitively) assigns the cell re-establishes it
         for c in fn.ins:
-            if c.op in ('call', 'invoke') and isinstance(c.callee, str) and fn_role(c.callee) not in ('GPS', 'NUL', 'GNB'):
-                if may_store(sc, c.callee, role): kills.append(c)
+            if c.op in ('call', 'invoke') and sc.callee(c) is not None and fn_role(sc.callee(c)) not in ('GPS', 'NUL', 'GNB'):
+                if may_store(sc, sc.callee(c), role): kills.append(c)
         uses = set(a.cell_loads(role)) | set(sc.calls(fn, 'GPS', 'NUL', 'GNB'))
     r = cfg.reach(first_ins(start_blk), avoid=kills, include_start=True)
     bad = sorted([x for x in r if x in uses], key=lambda x: (x.blk.fn.blocks.index(x.blk), x.idx))
